@@ -348,8 +348,14 @@ def stepsign(ctx):
                            offset=int(variant.split('=')[1]))
             for method, n, order in (('forward', 1, 2), ('central', 2, 2), ('complex', 4, 4)):
                 steps = list(gen(x, method, n, order))
-                signs = [ndarr.poly_sign(Poly.of(v)) for s in steps
-                         for v in (s.items() if isinstance(s, Arr) else [s])]
+                def sign_of(v):
+                    if isinstance(v, ndarr.Choice):
+                        sa, sb = sign_of(v.a), sign_of(v.b)
+                        return sa if sa == sb else None          # the sign depends on an undetermined condition
+                    if isinstance(v, ndarr.Unk):
+                        return None
+                    return ndarr.poly_sign(Poly.of(v))
+                signs = [sign_of(v) for s in steps for v in (s.items() if isinstance(s, Arr) else [s])]
                 rep.check(bool(steps) and all(s == 1 for s in signs), 'R-STEPSIGN',
                           'step_generators.%sStepGenerator.__call__' % kind, sg.relpath,
                           {'steps': [repr(s) for s in steps][:4], 'count': len(steps), 'signs': signs[:6]},
